@@ -103,7 +103,7 @@ func c10Run(c *fw.Case, env *fw.Env) *fw.Obs {
 		if p.Op == "push" {
 			return "heads/" + pl.Name
 		}
-		return "remotes/origin/" + pl.Name
+		return "remotes/origin/" + trackName(pl.Name)
 	}
 	// 1. every ref that moved without force moved forward; reflog entries are faithful
 	for name, nv := range out.refsAfter.vals {
@@ -125,6 +125,9 @@ func c10Run(c *fw.Case, env *fw.Env) *fw.Obs {
 					refForced = true
 				}
 			}
+		}
+		if (p.Op == "pull" || p.Op == "merge") && kind == "heads" {
+			refForced = false // a forced refspec is about the tracking ref; the local branch is merged into, never reset
 		}
 		if existed && !refForced {
 			if kind == "tags" {
@@ -341,6 +344,10 @@ func init() {
 			}
 			for i, rel := range []string{"remote-ahead", "diverged", "remote-ahead", "diverged"} {
 				l.Add("pull", netParams{Op: "pull", N: 8, BaseRows: 4, Branches: 1, Rel: rel, FFConf: []string{"never", "only"}[i/2%2], FF: []string{"ff", "ff", "", "ff"}[i%4]}, int64(1141+i))
+			}
+			// a branch name with a dot in it
+			for i, rel := range []string{"diverged", "remote-ahead", "diverged", "diverged", "new", "diverged"} {
+				l.Add("pull", netParams{Op: "pull", N: 8, BaseRows: 4, Branches: 1, Rel: rel, DotName: i != 3, Force: []string{"refspec", "", "refspec", "refspec", "", "refspec"}[i]}, int64(1151+i))
 			}
 			// the merge target spelled as "a commit below the branch": whatever wrgl does with it, the branch may only
 			// move forward along its own history
